@@ -265,6 +265,17 @@ def run_exp(c, rec):
         require(state_equal(sA.get_state(), st_fresh), f"{name}: reinitialize() does not return the sampler to the state it was constructed with",
                 after=str(sA.get_state()["state"])[:400], fresh=str(st_fresh["state"])[:400])
         require(chain_of(sA).size == 0, "reinitialize() did not clear the history")
+        # the re-initialised sampler run again for the SAME number of states under ANOTHER random stream: the chain it hands out
+        # is the one it just made (the states its callback saw), not the one recorded before
+        if N >= 1:
+            del log[:]
+            np.random.seed(c["seed"] + 12345)
+            must(lambda: sA.sample(N), "sample after reinitialize")
+            X2 = chain_of(sA)
+            require(X2.shape[-1] == N and len(log) == N, "after reinitialize(): the chain does not have the requested length", got=X2.shape, calls=len(log))
+            for (i, smp), col in zip(log, X2.T):
+                require(maxdiff(col, smp) == 0, f"{name}: after reinitialize() the recorded chain is not the chain of the new run (a state differs "
+                        "from the state handed to the callback)", index=i, stored=col, callback=smp)
         starts_unaltered()
     finally:
         del STARTS[:]
